@@ -362,7 +362,8 @@ def verify(E, c, verbose=False):
     limit = c.max_paths or E.max_paths
     prefix = c.key
     if E.deadline is None:
-        E.deadline = t0 + FUNC_BUDGET_S
+        from pyvc.smt import _load_scale
+        E.deadline = t0 + FUNC_BUDGET_S * _load_scale()
     # make sure every declared clause shows up as an obligation even if no path reaches it
     while work:
         dec = work.pop()
